@@ -46,5 +46,15 @@ def bind {α β : Type} : Res α → (α → Res β) → Res β
 @[simp] theorem bind_err {α β : Type} (f : α → Res β) : bind .err f = .err := rfl
 @[simp] theorem bind_panic {α β : Type} (f : α → Res β) : bind .panic f = .panic := rfl
 @[simp] theorem bind_ok_right {α : Type} (r : Res α) : bind r .ok = r := by cases r <;> rfl
+theorem bind_ite {α β : Type} (c : Prop) [Decidable c] (x y : Res α) (f : α → Res β) :
+    bind (if c then x else y) f = if c then bind x f else bind y f := by
+  split <;> rfl
+
+/-- Applies `f` to a successful outcome (used to state that a generated function equals the
+hand-written model up to the embedding of the model's values). -/
+def mapRes {α β : Type} (f : α → β) : Res α → Res β
+  | .ok a => .ok (f a)
+  | .err => .err
+  | .panic => .panic
 
 end ZygoVerif.GoSem
